@@ -425,3 +425,60 @@ def c10_yaml(tier, rng):
         shutil.rmtree(d, ignore_errors=True)
     return {"obligations": obl, "discharged": dis, "violations": viol, "cases": obl, "exhaustive": True,
             "bound": "ordered selections of 2-3 experiments out of 6 shapes", "samples": [{"experiments": ["sr", "plain"]}]}
+
+
+# ---- the one DatasetProcessor object lives across all experiments of a run: its accumulators must be re-bound per experiment --------------
+@finite("C10.run_wide_accumulators", ["C10", "C02"], note="every attribute that DatasetProcessor.__init__ binds and that code reachable from "
+        "process_sample (one call per experiment) mutates in place (.add / .merge / .update / += / item assignment) must also be re-bound "
+        "there: otherwise the second experiment of a run starts from the first one's totals; read from the AST")
+def c10_accumulators(tier, rng):
+    import ast
+    rel = "src/dataset_processor.py"
+    tree, _src = front.module_ast(rel)
+    cls = next((n for n in tree.body if isinstance(n, ast.ClassDef) and n.name == "DatasetProcessor"), None)
+    if cls is None:
+        return {"obligations": 1, "discharged": 0, "cases": 1, "violations": [{"obligation": "C10.run_wide_accumulators", "inputs": None,
+                "observed": "class DatasetProcessor not found", "required": "inventory applies", "undecided": True}]}
+    methods = {n.name: n for n in cls.body if isinstance(n, ast.FunctionDef)}
+
+    def self_calls(fn):
+        return {n.func.attr for n in ast.walk(fn) if isinstance(n, ast.Call) and isinstance(n.func, ast.Attribute)
+                and isinstance(n.func.value, ast.Name) and n.func.value.id == "self" and n.func.attr in methods}
+    reach, todo = set(), ["process_sample"] if "process_sample" in methods else []
+    while todo:
+        m = todo.pop()
+        if m not in reach:
+            reach.add(m)
+            todo += list(self_calls(methods[m]))
+
+    def self_attr(t):
+        return t.attr if isinstance(t, ast.Attribute) and isinstance(t.value, ast.Name) and t.value.id == "self" else None
+    init_attrs = {self_attr(t) for n in ast.walk(methods.get("__init__", cls)) if isinstance(n, ast.Assign) for t in n.targets if self_attr(t)}
+    rebound, mutated = set(), {}
+    MUT = ("add", "merge", "update", "append", "extend", "inc", "add_unaligned", "add_unassigned", "insert", "setdefault", "pop", "remove", "clear")
+    for m in sorted(reach):
+        for n in ast.walk(methods[m]):
+            if isinstance(n, ast.Assign):
+                for t in n.targets:
+                    if self_attr(t):
+                        rebound.add(self_attr(t))
+                    if isinstance(t, ast.Subscript) and self_attr(t.value):
+                        mutated.setdefault(self_attr(t.value), (m, n.lineno))
+            if isinstance(n, ast.AugAssign):
+                a = self_attr(n.target) or (self_attr(n.target.value) if isinstance(n.target, ast.Subscript) else None)
+                if a:
+                    mutated.setdefault(a, (m, n.lineno))
+            if isinstance(n, ast.Call) and isinstance(n.func, ast.Attribute) and n.func.attr in MUT and self_attr(n.func.value):
+                mutated.setdefault(self_attr(n.func.value), (m, n.lineno))
+    obl = dis = 0
+    viol = []
+    for a in sorted(init_attrs):
+        obl += 1
+        if a in mutated and a not in rebound:
+            viol.append({"obligation": "C10.frame.DatasetProcessor.%s" % a, "inputs": None,
+                         "observed": "self.%s is bound in __init__, mutated in place in %s (line %d) and never re-bound per experiment" % ((a,) + mutated[a]),
+                         "required": "per-experiment state is re-initialised in process_sample (or not kept on the run-wide object)"})
+        else:
+            dis += 1
+    return {"obligations": obl, "discharged": dis, "violations": viol, "cases": obl, "exhaustive": True,
+            "bound": "all %d attributes bound by DatasetProcessor.__init__" % len(init_attrs), "samples": [{"attribute": "all_read_groups", "rebound": True}]}
